@@ -38,6 +38,7 @@ type e4Version struct {
 	Version string  `json:"version"`
 	Name    string  `json:"name,omitempty"` // project name in its dawn.toml
 	Reqs    []e4Dep `json:"reqs,omitempty"`
+	Legacy  bool    `json:"legacy_config_too,omitempty"` // the checkout also holds a .dawnconfig (without requirements)
 }
 
 type e4Project struct {
@@ -202,6 +203,11 @@ func (r *e4Repository) FetchRevision(ctx context.Context, projectPath string, re
 	_, err = f.WriteString(sb.String())
 	if cerr := f.Close(); err == nil {
 		err = cerr
+	}
+	if err == nil && proj.Legacy {
+		// a project that still ships the file of an earlier layout next to dawn.toml, with
+		// other (older: no) requirements; dawn reads it only when there is no dawn.toml
+		err = os.WriteFile(filepath.Join(dir, ".dawnconfig"), []byte(fmt.Sprintf("name = %q\n", "legacy")), 0644)
 	}
 	return err
 }
@@ -427,7 +433,7 @@ func e4GenUniverse(r *rand.Rand, tier string) *e4Scenario {
 			if sharedName && r.IntN(3) != 0 {
 				name = "lib" // several projects that call themselves the same
 			}
-			p.Versions = append(p.Versions, e4Version{Version: v, Name: name})
+			p.Versions = append(p.Versions, e4Version{Version: v, Name: name, Legacy: r.IntN(6) == 0})
 		}
 		sc.Projects = append(sc.Projects, p)
 	}
@@ -755,6 +761,10 @@ func c10Exec(scAny any, c *simcheck.Ctx) *simcheck.Violation {
 		}
 		// bounded liveness: once faults stop, one more call succeeds
 		if v := check("after faults stopped", sc.Root, "cacheF", false); v != nil {
+			return v
+		}
+		// the cache is warm now: faults while reading it may fail the call, never change its answer
+		if v := check("warm cache with injected faults", sc.Root, "cacheF", true); v != nil {
 			return v
 		}
 		// ... also on the resolver that met the faults (a long-lived process that retries)
